@@ -26,7 +26,28 @@
      the reason of a level-0 variable (CoreSMTSolver.cc:628, :894 test the level first);
    * activity bumping, glue, statistics, proof logging, clause allocation: not modelled (no influence on
      out_learnt / out_btlevel);
-   * situations the C++ excludes by assert (or where it would read outside the trail) give [None]. *)
+   * situations the C++ excludes by assert (or where it would read outside the trail) give [None].
+     One assert is NOT modelled: assert(index >= 0) at CoreSMTSolver.cc:650 is evaluated after the
+     post-decrement of the while condition, so in a debug build it also rejects the case that the literal
+     found is trail[0] (it would have to be index >= -1 to express "did not run off the trail").  The
+     model allows p = oldest entry (behaviour of the NDEBUG build /verif/build/impl; in the solver
+     trail[0] is the level-0 literal of the term true, MainSolver.cc:65, which is never marked).
+
+   Theorems (all for arbitrary trails / clauses / decision levels)
+     analyze_implied        trail_wf tr -> falsified c tr -> analyze tr dl c = Some (learnt, bt) ->
+                            entails (reasons tr ++ [c]) learnt
+     analyze_asserting      ... -> (all levels <= dl) -> 0 < dl -> (c has a literal of level >= dl) ->
+                            asserting tr dl learnt bt
+                            (first literal of level dl, all others of level in 1..dl-1 and <= bt, bt = 0 for a
+                            unit clause and otherwise the level of some other literal, all literals false on the
+                            trail).  The two extra hypotheses are the documented preconditions of the C++
+                            (CoreSMTSolver.cc:579-581); [ex_low_not_asserting] shows that they are needed.
+     analyze_total          under the same hypotheses and [decisions_open_levels] (a decision is strictly above
+                            all older entries): analyze tr dl c <> None; in particular the fuel of litRedundant
+                            (|trail| + 2) always suffices ([minimize_total] needs no hypothesis at all).
+                            "The oldest entry of every level >= 1 is a decision" would not be enough: two
+                            decisions on one level make the C++ fail assert :720 ([ex_bad_none]).
+     analyze_nomin_implied / analyze_nomin_asserting / analyze_nomin_total   the same for [analyze_nomin]. *)
 From Coq Require Import ZArith NArith PArith List Bool Lia FSetPositive.
 From OsmtV.Sat Require Import PropLogic.
 Import ListNotations.
@@ -279,10 +300,1118 @@ Definition analyze_nomin (tr : trail) (dl : nat) (c : clause) : option (clause *
   end.
 
 (* ------------------------------------------------------------------------------------------ *)
-(* examples                                                                                    *)
+(* basic facts                                                                                 *)
+
+Definition sIn (v : positive) (s : PS.t) : Prop := PS.mem v s = true.
+
+Lemma sIn_add : forall v x s, sIn v (PS.add x s) <-> v = x \/ sIn v s.
+Proof.
+  intros v x s. unfold sIn. change (PS.In v (PS.add x s) <-> v = x \/ PS.In v s).
+  rewrite PS.add_spec. intuition.
+Qed.
+Lemma sIn_remove : forall v x s, sIn v (PS.remove x s) <-> sIn v s /\ v <> x.
+Proof.
+  intros v x s. unfold sIn. change (PS.In v (PS.remove x s) <-> PS.In v s /\ v <> x).
+  rewrite PS.remove_spec. intuition.
+Qed.
+Lemma sIn_empty : forall v, ~ sIn v PS.empty.
+Proof. intros v H. unfold sIn in H. unfold PS.empty in H. rewrite PS.mem_Leaf in H. discriminate. Qed.
+Lemma not_sIn : forall v s, PS.mem v s = false -> ~ sIn v s.
+Proof. unfold sIn; intros; congruence. Qed.
+
+Lemma lvar_opp : forall q, lvar (- q) = lvar q.
+Proof. intros [|p|p]; reflexivity. Qed.
+
+Lemma lit_true_opp_true : forall a q, q <> 0 -> lit_true a q = false -> lit_true a (- q) = true.
+Proof. intros a q Hq H. rewrite lit_true_opp by auto. now rewrite H. Qed.
+
+Lemma false_in_incl : forall q t1 t2, incl t1 t2 -> false_in q t1 -> false_in q t2.
+Proof. intros q t1 t2 Hi [Hq [e [He E]]]. split; auto. exists e; auto. Qed.
+Lemma falsified_incl : forall c t1 t2, incl t1 t2 -> falsified c t1 -> falsified c t2.
+Proof. intros c t1 t2 Hi H q Hq. eapply false_in_incl; eauto. Qed.
+
+Lemma false_inb_sound : forall q tr, false_inb q tr = true -> false_in q tr.
+Proof.
+  intros q tr H. unfold false_inb in H. apply andb_true_iff in H. destruct H as [H1 H2].
+  split.
+  - intros ->. discriminate.
+  - apply existsb_exists in H2. destruct H2 as [e [He E]]. exists e; split; auto. now apply Z.eqb_eq.
+Qed.
+Lemma falsifiedb_sound : forall c tr, falsifiedb c tr = true -> falsified c tr.
+Proof.
+  intros c tr H q Hq. unfold falsifiedb in H. rewrite forallb_forall in H. apply false_inb_sound; auto.
+Qed.
+Lemma trail_wfb_sound : forall tr, trail_wfb tr = true -> trail_wf tr.
+Proof.
+  induction tr as [|e tr IH]; simpl; intros H; [constructor|].
+  apply andb_true_iff in H. destruct H as [H Hr]. unfold wf_entryb in H.
+  repeat (apply andb_true_iff in H; destruct H as [H ?]).
+  constructor; auto.
+  - intros E. rewrite E in H. discriminate.
+  - intros [e' [He' E]]. apply negb_true_iff in H2.
+    assert (existsb (fun e'0 : tentry => (te_var e'0 =? te_var e)%positive) tr = true); [|congruence].
+    apply existsb_exists. exists e'; split; auto. now apply Pos.eqb_eq.
+  - intros e' He'. rewrite forallb_forall in H1. apply Nat.leb_le. auto.
+  - intros E. rewrite E in H0. now apply Nat.ltb_lt.
+  - intros r E. rewrite E in H0. destruct r as [|l rest]; [discriminate|].
+    apply andb_true_iff in H0. destruct H0 as [A B]. apply Z.eqb_eq in A. subst l.
+    exists rest; split; auto. now apply falsifiedb_sound.
+Qed.
+
+Lemma find_var_in : forall tr e, trail_wf tr -> In e tr -> find_var tr (te_var e) = Some e.
+Proof.
+  intros tr e Hwf. induction Hwf as [|e0 tr Hwf IH Hnz Hna Hmono Hdec Hreas]; intros Hin; [destruct Hin|].
+  unfold find_var; simpl. destruct Hin as [->|Hin].
+  - now rewrite Pos.eqb_refl.
+  - destruct (Pos.eqb_spec (te_var e0) (te_var e)) as [E|N].
+    + exfalso. apply Hna. exists e; split; auto.
+    + apply IH; auto.
+Qed.
+
+Lemma find_var_some : forall tr v e, find_var tr v = Some e -> In e tr /\ te_var e = v.
+Proof.
+  intros tr v e H. unfold find_var in H. apply find_some in H. destruct H as [H1 H2]. split; auto.
+  now apply Pos.eqb_eq.
+Qed.
+
+Lemma entry_unique : forall tr e1 e2, trail_wf tr -> In e1 tr -> In e2 tr -> te_var e1 = te_var e2 -> e1 = e2.
+Proof.
+  intros tr e1 e2 Hwf H1 H2 E. pose proof (find_var_in tr e1 Hwf H1) as F1.
+  pose proof (find_var_in tr e2 Hwf H2) as F2. rewrite E in F1. congruence.
+Qed.
+
+Lemma level_of_in : forall tr e, trail_wf tr -> In e tr -> level_of tr (te_var e) = te_level e.
+Proof. intros tr e Hwf Hin. unfold level_of. now rewrite (find_var_in tr e Hwf Hin). Qed.
+
+Lemma level_of_false : forall tr e q, trail_wf tr -> In e tr -> te_lit e = - q -> level_of tr (lvar q) = te_level e.
+Proof.
+  intros tr e q Hwf Hin E. rewrite <- (level_of_in tr e Hwf Hin). unfold te_var. rewrite E, lvar_opp. reflexivity.
+Qed.
+
+Lemma wf_suffix : forall pre rest, trail_wf (pre ++ rest) -> trail_wf rest.
+Proof. induction pre as [|e pre IH]; simpl; intros rest H; auto. inversion H; subst. auto. Qed.
+
+Lemma reasons_in : forall tr e r, In e tr -> te_reason e = Some r -> In r (reasons tr).
+Proof.
+  intros tr e r Hin E. unfold reasons. apply in_flat_map. exists e; split; auto. rewrite E. now left.
+Qed.
+
+Lemma reasons_incl : forall e tr, incl (reasons tr) (reasons (e :: tr)).
+Proof. intros e tr r Hr. unfold reasons in *. simpl. apply in_or_app. now right. Qed.
+
+(* hint (a): every level-0 literal of a well-formed trail is entailed by the reason clauses *)
+Lemma level0_entailed : forall tr, trail_wf tr ->
+  forall e, In e tr -> te_level e = O -> entails (reasons tr) [te_lit e].
+Proof.
+  intros tr Hwf. induction Hwf as [|e0 tr Hwf IH Hnz Hna Hmono Hdec Hreas]; intros e Hin Hl; [destruct Hin|].
+  destruct Hin as [->|Hin].
+  - destruct (te_reason e) as [r|] eqn:Er; [|specialize (Hdec eq_refl); lia].
+    destruct (Hreas r eq_refl) as [rest [-> Hf]].
+    intros a Ha. simpl. rewrite orb_false_r.
+    assert (Hr : clause_true a (te_lit e :: rest) = true).
+    { apply Ha. eapply reasons_in; [left; reflexivity|exact Er]. }
+    simpl in Hr. apply orb_true_iff in Hr. destruct Hr as [Hr|Hr]; auto.
+    exfalso. apply clause_true_iff in Hr. destruct Hr as [q [Hq Tq]].
+    destruct (Hf q Hq) as [Hq0 [e' [He' E']]].
+    assert (L0 : te_level e' = O) by (specialize (Hmono e' He'); lia).
+    specialize (IH e' He' L0 a). rewrite E' in IH. simpl in IH. rewrite orb_false_r in IH.
+    assert (lit_true a (- q) = true).
+    { apply IH. eapply models_incl; [apply (reasons_incl e tr)|exact Ha]. }
+    apply lit_true_opp_false in H. congruence.
+  - eapply entails_incl; [apply reasons_incl|]. apply IH; auto.
+Qed.
+(* ------------------------------------------------------------------------------------------ *)
+(* counting the pending literals                                                               *)
+
+Definition pendb (dl : nat) (seen : PS.t) (e : tentry) : bool :=
+  PS.mem (te_var e) seen && (dl <=? te_level e)%nat.
+Definition cnt (dl : nat) (seen : PS.t) (rest : trail) : nat := length (filter (pendb dl seen) rest).
+
+Lemma cnt_ext : forall dl s1 s2 rest,
+  (forall e, In e rest -> pendb dl s1 e = pendb dl s2 e) -> cnt dl s1 rest = cnt dl s2 rest.
+Proof. intros. unfold cnt. f_equal. now apply filter_ext_in. Qed.
+
+Lemma cnt_cons : forall dl s e rest,
+  cnt dl s (e :: rest) = ((if pendb dl s e then 1 else 0) + cnt dl s rest)%nat.
+Proof. intros. unfold cnt. simpl. destruct (pendb dl s e); reflexivity. Qed.
+
+Lemma cnt_pos : forall dl s rest e, In e rest -> pendb dl s e = true -> (1 <= cnt dl s rest)%nat.
+Proof.
+  intros dl s rest e Hin Hp. unfold cnt.
+  assert (H : In e (filter (pendb dl s) rest)) by (apply filter_In; auto).
+  destruct (filter (pendb dl s) rest); [destruct H | simpl; lia].
+Qed.
+
+Lemma cnt_pos_inv : forall dl s rest, (1 <= cnt dl s rest)%nat -> exists e, In e rest /\ pendb dl s e = true.
+Proof.
+  intros dl s rest H. unfold cnt in H. destruct (filter (pendb dl s) rest) as [|e l] eqn:E; [simpl in H; lia|].
+  assert (In e (filter (pendb dl s) rest)) by (rewrite E; now left).
+  apply filter_In in H0. exists e; auto.
+Qed.
+
+Lemma cnt_empty : forall dl rest, cnt dl PS.empty rest = O.
+Proof.
+  intros dl rest. destruct (cnt dl PS.empty rest) eqn:E; auto.
+  destruct (cnt_pos_inv dl PS.empty rest) as [e [_ H]]; [lia|].
+  unfold pendb in H. apply andb_true_iff in H. destruct H as [H _]. exfalso. apply (sIn_empty (te_var e)). exact H.
+Qed.
+
+Lemma mem_add_other : forall v x s, v <> x -> PS.mem v (PS.add x s) = PS.mem v s.
+Proof.
+  intros v x s N. destruct (PS.mem v s) eqn:E.
+  - apply sIn_add. now right.
+  - destruct (PS.mem v (PS.add x s)) eqn:E2; auto. apply sIn_add in E2. destruct E2; [contradiction|].
+    unfold sIn in H. congruence.
+Qed.
+Lemma mem_remove_other : forall v x s, v <> x -> PS.mem v (PS.remove x s) = PS.mem v s.
+Proof.
+  intros v x s N. destruct (PS.mem v s) eqn:E.
+  - apply sIn_remove. now split.
+  - destruct (PS.mem v (PS.remove x s)) eqn:E2; auto. apply sIn_remove in E2. destruct E2 as [H _].
+    unfold sIn in H. congruence.
+Qed.
+
+(* marking the variable of a pending-level entry *)
+Lemma cnt_add_hi : forall dl s rest e, trail_wf rest -> In e rest -> ~ sIn (te_var e) s ->
+  (dl <= te_level e)%nat -> cnt dl (PS.add (te_var e) s) rest = S (cnt dl s rest).
+Proof.
+  intros dl s rest e Hwf. induction Hwf as [|e0 tr Hwf IH Hnz Hna Hmono Hdec Hreas]; intros Hin Hns Hl; [destruct Hin|].
+  rewrite !cnt_cons. destruct Hin as [->|Hin].
+  - assert (P1 : pendb dl (PS.add (te_var e) s) e = true).
+    { unfold pendb. apply andb_true_iff; split; [apply sIn_add; now left | now apply Nat.leb_le]. }
+    assert (P2 : pendb dl s e = false).
+    { unfold pendb. destruct (PS.mem (te_var e) s) eqn:E; auto. contradiction. }
+    rewrite P1, P2. simpl. f_equal. apply cnt_ext. intros e' He'. unfold pendb.
+    rewrite mem_add_other; auto. intros E. apply Hna. exists e'; auto.
+  - assert (N : te_var e0 <> te_var e).
+    { intros E. apply Hna. exists e; auto. }
+    assert (P : pendb dl (PS.add (te_var e) s) e0 = pendb dl s e0).
+    { unfold pendb. now rewrite mem_add_other. }
+    rewrite P, IH by auto. lia.
+Qed.
+
+Lemma cnt_add_lo : forall dl s rest e, trail_wf rest -> In e rest ->
+  (te_level e < dl)%nat -> cnt dl (PS.add (te_var e) s) rest = cnt dl s rest.
+Proof.
+  intros dl s rest e Hwf Hin Hl. apply cnt_ext. intros e' He'. unfold pendb.
+  destruct (Pos.eq_dec (te_var e') (te_var e)) as [E|N].
+  - assert (e' = e) by (eapply entry_unique; eauto). subst e'.
+    assert ((dl <=? te_level e)%nat = false) by (apply Nat.leb_gt; lia). rewrite H. now rewrite !andb_false_r.
+  - now rewrite mem_add_other.
+Qed.
+
+Lemma cnt_remove_absent : forall dl s rest v, ~ assigned v rest -> cnt dl (PS.remove v s) rest = cnt dl s rest.
+Proof.
+  intros dl s rest v Hna. apply cnt_ext. intros e He. unfold pendb. rewrite mem_remove_other; auto.
+  intros E. apply Hna. exists e; auto.
+Qed.
+
+(* ------------------------------------------------------------------------------------------ *)
+(* phase 1                                                                                     *)
+
+Section Phase1.
+Variables (tr : trail) (dl : nat) (c : clause).
+Hypothesis Hwf : trail_wf tr.
+Let G := reasons tr ++ [c].
+
+Definition pendfalse (a : assignment) (seen : PS.t) (rest : trail) : Prop :=
+  exists e, In e rest /\ sIn (te_var e) seen /\ (dl <= te_level e)%nat /\ lit_true a (te_lit e) = false.
+
+Record InvS (rest : trail) (seen : PS.t) (out : list Z) : Prop := {
+  is_cover : forall v, sIn v seen -> exists e, In e rest /\ te_var e = v;
+  is_low : forall e, In e rest -> sIn (te_var e) seen -> (te_level e < dl)%nat -> In (- te_lit e) out;
+  is_out : forall q, In q out -> false_in q tr /\ (0 < level_of tr (lvar q) < dl)%nat
+}.
+
+Lemma models_G_reasons : forall a, models a G -> models a (reasons tr).
+Proof. intros a Ha. apply models_app in Ha. tauto. Qed.
+
+Lemma absorb_spec : forall pre rest, tr = pre ++ rest ->
+  forall qs seen out pc seen' out' pc',
+  falsified qs rest -> InvS rest seen out -> pc = Z.of_nat (cnt dl seen rest) ->
+  absorb tr dl qs seen out pc = (seen', out', pc') ->
+  InvS rest seen' out' /\ pc' = Z.of_nat (cnt dl seen' rest) /\ pc <= pc' /\
+  (forall v, sIn v seen -> sIn v seen') /\
+  (forall q, In q qs -> (0 < level_of tr (lvar q))%nat -> sIn (lvar q) seen') /\
+  (forall a, models a G ->
+     clause_true a out = true \/ pendfalse a seen rest \/ clause_true a qs = true ->
+     clause_true a out' = true \/ pendfalse a seen' rest).
+Proof.
+  intros pre rest Htr.
+  assert (Hwfr : trail_wf rest) by (apply (wf_suffix pre); now rewrite <- Htr).
+  assert (Hsub : incl rest tr) by (rewrite Htr; apply incl_appr, incl_refl).
+  induction qs as [|q qs IH]; intros seen out pc seen' out' pc' Hf HI Hpc Hab.
+  - simpl in Hab. inversion Hab; subst. repeat split; try apply HI; auto; try lia.
+    + intros q [].
+    + intros a Ha [H|[H|H]]; auto. discriminate.
+  - assert (Hf' : falsified qs rest) by (intros x Hx; apply Hf; now right).
+    destruct (Hf q (or_introl eq_refl)) as [Hq0 [eq [Heq Eeq]]].
+    assert (Hvar : te_var eq = lvar q) by (unfold te_var; now rewrite Eeq, lvar_opp).
+    assert (Hlvl : level_of tr (lvar q) = te_level eq) by (apply level_of_false; auto).
+    assert (Hqlit : - te_lit eq = q) by (rewrite Eeq; lia).
+    simpl in Hab.
+    destruct (PS.mem (lvar q) seen) eqn:Eseen.
+    { (* already seen *)
+      destruct (IH _ _ _ _ _ _ Hf' HI Hpc Hab) as [A [B [C [D [E F]]]]].
+      repeat split; try apply A; auto.
+      - intros x [<-|Hx] Hl; auto.
+      - intros a Ha Hpre. apply F; auto. destruct Hpre as [H|[H|H]]; auto.
+        simpl in H. apply orb_true_iff in H. destruct H as [H|H]; auto.
+        destruct (Nat.le_gt_cases dl (te_level eq)) as [Hhi|Hlo].
+        + right; left. exists eq. rewrite Hvar. repeat split; auto.
+          rewrite Eeq. rewrite lit_true_opp by auto. now rewrite H.
+        + left. apply clause_true_iff. exists q; split; auto.
+          rewrite <- Hqlit. apply (is_low _ _ _ HI); auto. now rewrite Hvar. }
+    destruct (0 <? level_of tr (lvar q))%nat eqn:Epos.
+    2:{ (* level 0 *)
+      apply Nat.ltb_ge in Epos.
+      destruct (IH _ _ _ _ _ _ Hf' HI Hpc Hab) as [A [B [C [D [E F]]]]].
+      repeat split; try apply A; auto.
+      - intros x [<-|Hx] Hl; auto. lia.
+      - intros a Ha Hpre. apply F; auto. destruct Hpre as [H|[H|H]]; auto.
+        simpl in H. apply orb_true_iff in H. destruct H as [H|H]; auto.
+        exfalso. assert (L0 : te_level eq = O) by lia.
+        pose proof (level0_entailed tr Hwf eq (Hsub _ Heq) L0 a (models_G_reasons a Ha)) as T.
+        simpl in T. rewrite orb_false_r in T. rewrite Eeq in T. apply lit_true_opp_false in T. congruence. }
+    apply Nat.ltb_lt in Epos. apply not_sIn in Eseen.
+    destruct (dl <=? level_of tr (lvar q))%nat eqn:Ehi.
+    { (* pending level *)
+      apply Nat.leb_le in Ehi.
+      assert (HI1 : InvS rest (PS.add (lvar q) seen) out).
+      { constructor.
+        - intros v Hv. apply sIn_add in Hv. destruct Hv as [->|Hv]; [exists eq; auto | apply (is_cover _ _ _ HI); auto].
+        - intros e He Hs Hl. apply sIn_add in Hs. destruct Hs as [Hs|Hs]; [|apply (is_low _ _ _ HI); auto].
+          assert (e = eq) by (apply (entry_unique rest); auto; congruence). subst e. lia.
+        - apply HI. }
+      assert (Hpc1 : pc + 1 = Z.of_nat (cnt dl (PS.add (lvar q) seen) rest)).
+      { rewrite <- Hvar. rewrite cnt_add_hi; auto; try lia. now rewrite Hvar. }
+      destruct (IH _ _ _ _ _ _ Hf' HI1 Hpc1 Hab) as [A [B [C [D [E F]]]]].
+      repeat split; try apply A; auto; try lia.
+      - intros v Hv. apply D. apply sIn_add. now right.
+      - intros x [<-|Hx] Hl; auto. apply D. apply sIn_add. now left.
+      - intros a Ha Hpre. apply F; auto. destruct Hpre as [H|[H|H]]; auto.
+        + right; left. destruct H as [e [He [Hs [Hl Hfalse]]]]. exists e. repeat split; auto.
+          apply sIn_add. now right.
+        + simpl in H. apply orb_true_iff in H. destruct H as [H|H]; auto.
+          right; left. exists eq. repeat split; auto; try lia.
+          * apply sIn_add. now left.
+          * rewrite Eeq. rewrite lit_true_opp by auto. now rewrite H. }
+    { (* lower level: goes to out_learnt *)
+      apply Nat.leb_gt in Ehi.
+      assert (HI1 : InvS rest (PS.add (lvar q) seen) (out ++ [q])).
+      { constructor.
+        - intros v Hv. apply sIn_add in Hv. destruct Hv as [->|Hv]; [exists eq; auto | apply (is_cover _ _ _ HI); auto].
+        - intros e He Hs Hl. apply in_or_app. apply sIn_add in Hs. destruct Hs as [Hs|Hs].
+          + assert (e = eq) by (apply (entry_unique rest); auto; congruence). subst e. right. left. auto.
+          + left. apply (is_low _ _ _ HI); auto.
+        - intros x Hx. apply in_app_or in Hx. destruct Hx as [Hx|[<-|[]]]; [apply HI; auto|].
+          split; [|lia]. split; auto. exists eq; auto. }
+      assert (Hpc1 : pc = Z.of_nat (cnt dl (PS.add (lvar q) seen) rest)).
+      { rewrite <- Hvar. rewrite cnt_add_lo; auto; lia. }
+      destruct (IH _ _ _ _ _ _ Hf' HI1 Hpc1 Hab) as [A [B [C [D [E F]]]]].
+      repeat split; try apply A; auto; try lia.
+      - intros v Hv. apply D. apply sIn_add. now right.
+      - intros x [<-|Hx] Hl; auto. apply D. apply sIn_add. now left.
+      - intros a Ha Hpre. apply F; auto. destruct Hpre as [H|[H|H]]; auto.
+        + left. rewrite clause_true_app. now rewrite H.
+        + right; left. destruct H as [e [He [Hs [Hl Hfalse]]]]. exists e. repeat split; auto.
+          apply sIn_add. now right.
+        + simpl in H. apply orb_true_iff in H. destruct H as [H|H]; auto.
+          left. rewrite clause_true_app. simpl. rewrite H. now rewrite orb_true_r. }
+Qed.
+
+Lemma walk_spec : forall rest pre seen out pc mat p seen' out' mat',
+  tr = pre ++ rest -> InvS rest seen out -> pc = Z.of_nat (cnt dl seen rest) ->
+  (forall a, models a G -> clause_true a out = true \/ pendfalse a seen rest) ->
+  walk tr dl rest seen out pc mat = Some (p, seen', out', mat') ->
+  (forall a, models a G -> clause_true a (- p :: out') = true) /\
+  (forall q, In q out' -> false_in q tr /\ (0 < level_of tr (lvar q) < dl)%nat) /\
+  (forall v, sIn v seen' -> exists q, In q out' /\ lvar q = v) /\
+  (exists e, In e tr /\ te_lit e = p /\ (1 <= pc -> (dl <= te_level e)%nat)).
+Proof.
+  induction rest as [|e rest IH]; intros pre seen out pc mat p seen' out' mat' Htr HI Hpc Hsem Hw;
+    [discriminate|].
+  assert (Hwfr : trail_wf (e :: rest)) by (apply (wf_suffix pre); now rewrite <- Htr).
+  assert (Htr' : tr = (pre ++ [e]) ++ rest) by (rewrite <- app_assoc; exact Htr).
+  assert (Hsub : incl (e :: rest) tr) by (rewrite Htr; apply incl_appr, incl_refl).
+  inversion Hwfr as [|e0 tr0 Hwf0 Hnz Hna Hmono Hdec Hreas]; subst e0 tr0.
+  simpl in Hw. rewrite cnt_cons in Hpc.
+  destruct (PS.mem (te_var e) seen) eqn:Eseen.
+  2:{ (* not seen: walk on *)
+    assert (Pe : pendb dl seen e = false) by (unfold pendb; now rewrite Eseen).
+    rewrite Pe in Hpc. simpl in Hpc.
+    apply (IH (pre ++ [e]) seen out pc mat p seen' out' mat'); auto.
+    - constructor.
+      + intros v Hv. destruct (is_cover _ _ _ HI v Hv) as [e' [[<-|He'] E]].
+        * subst v. unfold sIn in Hv. congruence.
+        * exists e'; auto.
+      + intros e' He'. apply (is_low _ _ _ HI). now right.
+      + apply HI.
+    - intros a Ha. destruct (Hsem a Ha) as [H|[e' [[<-|He'] [Hs H]]]]; auto.
+      + unfold sIn in Hs. congruence.
+      + right. exists e'; auto. }
+  (* e is the next seen literal p *)
+  assert (Fhi : (1 <= cnt dl seen rest)%nat -> (dl <= te_level e)%nat).
+  { intros H. destruct (cnt_pos_inv _ _ _ H) as [e' [He' Pe']]. unfold pendb in Pe'.
+    apply andb_true_iff in Pe'. destruct Pe' as [_ L]. apply Nat.leb_le in L. specialize (Hmono e' He'). lia. }
+  assert (Hcover' : forall v, sIn v (PS.remove (te_var e) seen) -> exists e', In e' rest /\ te_var e' = v /\ sIn v seen).
+  { intros v Hv. apply sIn_remove in Hv. destruct Hv as [Hv N].
+    destruct (is_cover _ _ _ HI v Hv) as [e' [[<-|He'] E]]; [congruence|]. exists e'; auto. }
+  assert (Exit : pc <= 1 ->
+    (forall a, models a G -> clause_true a (- te_lit e :: out) = true) /\
+    (forall q, In q out -> false_in q tr /\ (0 < level_of tr (lvar q) < dl)%nat) /\
+    (forall v, sIn v (PS.remove (te_var e) seen) -> exists q, In q out /\ lvar q = v) /\
+    (exists e0, In e0 tr /\ te_lit e0 = te_lit e /\ (1 <= pc -> (dl <= te_level e0)%nat))).
+  { intros Hle.
+    assert (Hnone : forall e', In e' rest -> sIn (te_var e') seen -> (dl <= te_level e')%nat -> False).
+    { intros e' He' Hs Hl.
+      assert (P : pendb dl seen e' = true) by (unfold pendb; apply andb_true_iff; split; auto; now apply Nat.leb_le).
+      pose proof (cnt_pos _ _ _ _ He' P) as C1. specialize (Fhi C1).
+      assert (Pe : pendb dl seen e = true) by (unfold pendb; apply andb_true_iff; split; auto; now apply Nat.leb_le).
+      rewrite Pe in Hpc. lia. }
+    split; [|split; [|split]].
+    - intros a Ha. simpl. apply orb_true_iff. destruct (Hsem a Ha) as [H|[e' [[<-|He'] [Hs [Hl H]]]]]; auto.
+      + left. now apply lit_true_opp_true.
+      + exfalso. eapply Hnone; eauto.
+    - apply HI; auto.
+    - intros v Hv. destruct (Hcover' v Hv) as [e' [He' [E Hs]]]. exists (- te_lit e'). split.
+      + apply (is_low _ _ _ HI); [now right | now rewrite E |].
+        destruct (Nat.le_gt_cases dl (te_level e')); auto. exfalso. apply (Hnone e'); auto. now rewrite E.
+      + rewrite lvar_opp. exact E.
+    - exists e. repeat split; auto. { apply Hsub. now left. }
+      intros H1. destruct (pendb dl seen e) eqn:Pe.
+      + unfold pendb in Pe. apply andb_true_iff in Pe. destruct Pe as [_ L]. now apply Nat.leb_le.
+      + apply Fhi. simpl in Hpc. lia. }
+  destruct (te_reason e) as [r|] eqn:Er.
+  2:{ destruct (pc =? 1) eqn:E1; [|discriminate]. apply Z.eqb_eq in E1. inversion Hw; subst.
+      apply Exit. lia. }
+  destruct (0 <? pc - 1) eqn:Egt.
+  2:{ apply Z.ltb_ge in Egt. inversion Hw; subst. apply Exit. lia. }
+  apply Z.ltb_lt in Egt.
+  destruct (Hreas r eq_refl) as [rr [-> Hfr]]. simpl in Hw.
+  destruct (absorb tr dl rr (PS.remove (te_var e) seen) out (pc - 1)) as [[s o] pc1] eqn:Eab.
+  assert (Hhi : (dl <= te_level e)%nat).
+  { apply Fhi. destruct (pendb dl seen e); simpl in Hpc; lia. }
+  assert (Pe : pendb dl seen e = true) by (unfold pendb; apply andb_true_iff; split; auto; now apply Nat.leb_le).
+  rewrite Pe in Hpc.
+  assert (HI1 : InvS rest (PS.remove (te_var e) seen) out).
+  { constructor.
+    - intros v Hv. destruct (Hcover' v Hv) as [e' [He' [E _]]]. exists e'; auto.
+    - intros e' He' Hs Hl. apply sIn_remove in Hs. destruct Hs as [Hs _]. apply (is_low _ _ _ HI); auto. now right.
+    - apply HI. }
+  assert (Hpc1 : pc - 1 = Z.of_nat (cnt dl (PS.remove (te_var e) seen) rest)).
+  { rewrite cnt_remove_absent; auto. lia. }
+  destruct (absorb_spec (pre ++ [e]) rest Htr' rr _ _ _ _ _ _ Hfr HI1 Hpc1 Eab) as [A [B [C [D [E F]]]]].
+  assert (Hsem1 : forall a, models a G -> clause_true a o = true \/ pendfalse a s rest).
+  { intros a Ha. apply F; auto.
+    destruct (Hsem a Ha) as [H|[e' [[<-|He'] [Hs [Hl H]]]]]; auto.
+    + right; right.
+      assert (T : clause_true a (te_lit e :: rr) = true).
+      { apply Ha. unfold G. apply in_or_app. left. eapply reasons_in; [|exact Er]. apply Hsub. now left. }
+      simpl in T. rewrite H in T. exact T.
+    + right; left. exists e'. repeat split; auto. apply sIn_remove. split; auto.
+      intros E'. apply Hna. exists e'; auto. }
+  destruct (IH (pre ++ [e]) s o pc1 _ p seen' out' mat' Htr' A B Hsem1 Hw) as [R1 [R2 [R3 [e0 [R4 [R5 R6]]]]]].
+  split; [|split; [|split]]; auto. exists e0. repeat split; auto. intros _. apply R6. lia.
+Qed.
+
+Lemma phase1_spec : forall p s1 tail mat,
+  falsified c tr -> phase1 tr dl c = Some (p, s1, tail, mat) ->
+  (forall a, models a G -> clause_true a (- p :: tail) = true) /\
+  (forall q, In q tail -> false_in q tr /\ (0 < level_of tr (lvar q) < dl)%nat) /\
+  (forall v, sIn v s1 -> exists q, In q tail /\ lvar q = v) /\
+  (exists e, In e tr /\ te_lit e = p /\
+     ((0 < dl)%nat -> (exists q, In q c /\ (dl <= level_of tr (lvar q))%nat) -> (dl <= te_level e)%nat)).
+Proof.
+  intros p s1 tail mat Hf Hp. unfold phase1 in Hp.
+  destruct (absorb tr dl c PS.empty [] 0) as [[s0 o0] pc0] eqn:Eab.
+  assert (HI0 : InvS tr PS.empty []).
+  { constructor.
+    - intros v Hv. exfalso. eapply sIn_empty; exact Hv.
+    - intros e _ Hs. exfalso. eapply sIn_empty; exact Hs.
+    - intros q []. }
+  assert (Hpc0 : 0 = Z.of_nat (cnt dl PS.empty tr)) by (rewrite cnt_empty; reflexivity).
+  destruct (absorb_spec [] tr eq_refl c _ _ _ _ _ _ Hf HI0 Hpc0 Eab) as [A [B [C [D [E F]]]]].
+  assert (Hsem0 : forall a, models a G -> clause_true a o0 = true \/ pendfalse a s0 tr).
+  { intros a Ha. apply F; auto. right; right. apply Ha. unfold G. apply in_or_app. right. now left. }
+  destruct (walk_spec tr [] s0 o0 pc0 _ p s1 tail mat eq_refl A B Hsem0 Hp) as [R1 [R2 [R3 [e0 [R4 [R5 R6]]]]]].
+  split; [|split; [|split]]; auto. exists e0. repeat split; auto. intros Hdl [q [Hq Hl]]. apply R6.
+  assert (Hs : sIn (lvar q) s0) by (apply E; auto; lia).
+  destruct (Hf q Hq) as [Hq0 [eq [Heq Eeq]]].
+  assert (Hlvl : level_of tr (lvar q) = te_level eq) by (apply level_of_false; auto).
+  assert (P : pendb dl s0 eq = true).
+  { unfold pendb. apply andb_true_iff. split.
+    - unfold te_var. rewrite Eeq, lvar_opp. exact Hs.
+    - apply Nat.leb_le. lia. }
+  pose proof (cnt_pos _ _ _ _ Heq P). lia.
+Qed.
+
+(* totality of phase 1 *)
+Definition decisions_open_levels (t : trail) : Prop :=
+  forall pre e post, t = pre ++ e :: post -> te_reason e = None ->
+  forall e', In e' post -> (te_level e' < te_level e)%nat.
+
+Lemma walk_total : forall rest pre seen out pc mat,
+  (forall e, In e tr -> (te_level e <= dl)%nat) -> decisions_open_levels tr ->
+  tr = pre ++ rest -> InvS rest seen out -> pc = Z.of_nat (cnt dl seen rest) -> 1 <= pc ->
+  walk tr dl rest seen out pc mat <> None.
+Proof.
+  induction rest as [|e rest IH]; intros pre seen out pc mat Hmax Hdec Htr HI Hpc H1.
+  { unfold cnt in Hpc. simpl in Hpc. lia. }
+  assert (Hwfr : trail_wf (e :: rest)) by (apply (wf_suffix pre); now rewrite <- Htr).
+  assert (Htr' : tr = (pre ++ [e]) ++ rest) by (rewrite <- app_assoc; exact Htr).
+  assert (Hsub : incl (e :: rest) tr) by (rewrite Htr; apply incl_appr, incl_refl).
+  inversion Hwfr as [|e0 tr0 Hwf0 Hnz Hna Hmono Hdec0 Hreas]; subst e0 tr0.
+  simpl. rewrite cnt_cons in Hpc.
+  destruct (PS.mem (te_var e) seen) eqn:Eseen.
+  2:{ assert (Pe : pendb dl seen e = false) by (unfold pendb; now rewrite Eseen).
+      rewrite Pe in Hpc. simpl in Hpc.
+      apply (IH (pre ++ [e])); auto.
+      constructor.
+      + intros v Hv. destruct (is_cover _ _ _ HI v Hv) as [e' [[<-|He'] E]].
+        * subst v. unfold sIn in Hv. congruence.
+        * exists e'; auto.
+      + intros e' He'. apply (is_low _ _ _ HI). now right.
+      + apply HI. }
+  assert (Hpend : (1 <= cnt dl seen rest)%nat -> exists e', In e' rest /\ (dl <= te_level e')%nat).
+  { intros H. destruct (cnt_pos_inv _ _ _ H) as [e' [He' Pe']]. unfold pendb in Pe'.
+    apply andb_true_iff in Pe'. destruct Pe' as [_ L]. apply Nat.leb_le in L. exists e'; auto. }
+  destruct (te_reason e) as [r|] eqn:Er.
+  2:{ destruct (pc =? 1) eqn:E1; [discriminate|]. apply Z.eqb_neq in E1. exfalso.
+      destruct Hpend as [e' [He' L]]. { destruct (pendb dl seen e); simpl in Hpc; lia. }
+      pose proof (Hdec pre e rest Htr Er e' He').
+      assert (te_level e <= dl)%nat by (apply Hmax, Hsub; now left). lia. }
+  destruct (0 <? pc - 1) eqn:Egt; [|discriminate].
+  apply Z.ltb_lt in Egt.
+  destruct (Hreas r eq_refl) as [rr [-> Hfr]]. simpl.
+  destruct (absorb tr dl rr (PS.remove (te_var e) seen) out (pc - 1)) as [[s o] pc1] eqn:Eab.
+  assert (Hhi : (dl <= te_level e)%nat).
+  { destruct Hpend as [e' [He' L]]. { destruct (pendb dl seen e); simpl in Hpc; lia. }
+    specialize (Hmono e' He'). lia. }
+  assert (Pe : pendb dl seen e = true) by (unfold pendb; apply andb_true_iff; split; auto; now apply Nat.leb_le).
+  rewrite Pe in Hpc.
+  assert (HI1 : InvS rest (PS.remove (te_var e) seen) out).
+  { constructor.
+    - intros v Hv. apply sIn_remove in Hv. destruct Hv as [Hv N].
+      destruct (is_cover _ _ _ HI v Hv) as [e' [[<-|He'] E]]; [congruence|]. exists e'; auto.
+    - intros e' He' Hs Hl. apply sIn_remove in Hs. destruct Hs as [Hs _]. apply (is_low _ _ _ HI); auto. now right.
+    - apply HI. }
+  assert (Hpc1 : pc - 1 = Z.of_nat (cnt dl (PS.remove (te_var e) seen) rest)).
+  { rewrite cnt_remove_absent; auto. lia. }
+  destruct (absorb_spec (pre ++ [e]) rest Htr' rr _ _ _ _ _ _ Hfr HI1 Hpc1 Eab) as [A [B [C _]]].
+  apply (IH (pre ++ [e])); auto. lia.
+Qed.
+
+Lemma phase1_total :
+  falsified c tr -> (forall e, In e tr -> (te_level e <= dl)%nat) -> decisions_open_levels tr ->
+  (0 < dl)%nat -> (exists q, In q c /\ (dl <= level_of tr (lvar q))%nat) ->
+  phase1 tr dl c <> None.
+Proof.
+  intros Hf Hmax Hdec Hdl [q [Hq Hl]]. unfold phase1.
+  destruct (absorb tr dl c PS.empty [] 0) as [[s0 o0] pc0] eqn:Eab.
+  assert (HI0 : InvS tr PS.empty []).
+  { constructor.
+    - intros v Hv. exfalso. eapply sIn_empty; exact Hv.
+    - intros e _ Hs. exfalso. eapply sIn_empty; exact Hs.
+    - intros x []. }
+  assert (Hpc0 : 0 = Z.of_nat (cnt dl PS.empty tr)) by (rewrite cnt_empty; reflexivity).
+  destruct (absorb_spec [] tr eq_refl c _ _ _ _ _ _ Hf HI0 Hpc0 Eab) as [A [B [C [D [E F]]]]].
+  apply (walk_total tr []); auto.
+  assert (Hs : sIn (lvar q) s0) by (apply E; auto; lia).
+  destruct (Hf q Hq) as [Hq0 [eq [Heq Eeq]]].
+  assert (Hlvl : level_of tr (lvar q) = te_level eq) by (apply level_of_false; auto).
+  assert (P : pendb dl s0 eq = true).
+  { unfold pendb. apply andb_true_iff. split.
+    - unfold te_var. rewrite Eeq, lvar_opp. exact Hs.
+    - apply Nat.leb_le. lia. }
+  pose proof (cnt_pos _ _ _ _ Heq P). lia.
+Qed.
+
+End Phase1.
+
+(* ------------------------------------------------------------------------------------------ *)
+(* phase 3                                                                                     *)
+
+Lemma max_idx_spec : forall tr l pre best bl,
+  (best < length pre)%nat -> level_of tr (lvar (nth best (pre ++ l) 0)) = bl ->
+  (forall x, In x pre -> (level_of tr (lvar x) <= bl)%nat) ->
+  (max_idx tr l (length pre) best bl < length (pre ++ l))%nat /\
+  forall x, In x (pre ++ l) ->
+    (level_of tr (lvar x) <= level_of tr (lvar (nth (max_idx tr l (length pre) best bl) (pre ++ l) 0%Z)))%nat.
+Proof.
+  intros tr. induction l as [|q l IH]; intros pre best bl Hb Hn Hall; simpl.
+  - rewrite app_nil_r in *. split; auto. intros x Hx. rewrite Hn. auto.
+  - assert (Eapp : pre ++ q :: l = (pre ++ [q]) ++ l) by (now rewrite <- app_assoc).
+    assert (Elen : S (length pre) = length (pre ++ [q])) by (rewrite app_length; simpl; lia).
+    rewrite Eapp, Elen.
+    destruct (bl <? level_of tr (lvar q))%nat eqn:E.
+    + apply Nat.ltb_lt in E. apply IH.
+      * rewrite <- Elen. lia.
+      * rewrite <- Eapp. now rewrite nth_middle.
+      * intros x Hx. apply in_app_or in Hx. destruct Hx as [Hx|[<-|[]]]; auto. specialize (Hall x Hx). lia.
+    + apply Nat.ltb_ge in E. apply IH.
+      * rewrite <- Elen. lia.
+      * rewrite <- Eapp. exact Hn.
+      * intros x Hx. apply in_app_or in Hx. destruct Hx as [Hx|[<-|[]]]; auto.
+Qed.
+
+Lemma swap_in_spec : forall l x k p l', swap_in x l k = (p, l') ->
+  (forall z, In z (p :: l') <-> In z (x :: l)) /\ ((k < length l)%nat -> p = nth k l 0).
+Proof.
+  induction l as [|y l IH]; intros x k p l' H; simpl in H.
+  - inversion H; subst. split; [tauto | simpl; lia].
+  - destruct k as [|k].
+    + inversion H; subst. split; [simpl; tauto | reflexivity].
+    + destruct (swap_in x l k) as [p1 l1] eqn:E. inversion H; subst.
+      destruct (IH _ _ _ _ E) as [A B]. split.
+      * intros z. specialize (A z). simpl in *. tauto.
+      * intros Hk. simpl in Hk. simpl. apply B. lia.
+Qed.
+
+Lemma backjump_spec : forall tr l0 kept learnt bt, backjump tr l0 kept = (learnt, bt) ->
+  exists rest, learnt = l0 :: rest /\
+    (forall z, In z rest <-> In z kept) /\
+    (kept = [] -> rest = [] /\ bt = O) /\
+    (forall q, In q rest -> (level_of tr (lvar q) <= bt)%nat) /\
+    (kept <> [] -> exists q, In q rest /\ level_of tr (lvar q) = bt).
+Proof.
+  intros tr l0 kept learnt bt H. unfold backjump in H. destruct kept as [|q1 r].
+  - inversion H; subst. exists []. repeat split; auto; try tauto. intros q [].
+  - destruct (max_idx_spec tr r [q1] 0 (level_of tr (lvar q1))) as [Hk Hmax]; auto.
+    { intros x [<-|[]]. lia. }
+    simpl length in *. simpl app in *.
+    destruct (max_idx tr r 1 0 (level_of tr (lvar q1))) as [|k] eqn:Ek.
+    + inversion H; subst. exists (q1 :: r). repeat split; auto; try tauto; try discriminate.
+      intros _. exists q1; split; auto. now left.
+    + destruct (swap_in q1 r k) as [p r'] eqn:Es. inversion H; subst.
+      destruct (swap_in_spec _ _ _ _ _ Es) as [A B].
+      assert (Hp : p = nth (S k) (q1 :: r) 0) by (simpl; apply B; simpl in Hk; lia).
+      exists (p :: r'). repeat split; try apply A; try discriminate.
+      * intros q Hq. rewrite Hp. apply Hmax. now apply A.
+      * intros _. exists p; split; auto. now left.
+Qed.
+
+(* ------------------------------------------------------------------------------------------ *)
+(* the theorems for the variant without minimisation                                           *)
+
+Definition asserting (tr : trail) (dl : nat) (learnt : clause) (bt : nat) : Prop :=
+  exists l rest, learnt = l :: rest /\
+    level_of tr (lvar l) = dl /\
+    (forall q, In q rest -> (0 < level_of tr (lvar q) < dl)%nat /\ (level_of tr (lvar q) <= bt)%nat) /\
+    (rest = [] -> bt = O) /\
+    (rest <> [] -> exists q, In q rest /\ level_of tr (lvar q) = bt) /\
+    falsified learnt tr.
+
+Lemma finish_implied : forall tr c p kept learnt bt,
+  (forall a, models a (reasons tr ++ [c]) -> clause_true a (- p :: kept) = true) ->
+  backjump tr (- p) kept = (learnt, bt) -> entails (reasons tr ++ [c]) learnt.
+Proof.
+  intros tr c p kept learnt bt H Hb a Ha.
+  destruct (backjump_spec _ _ _ _ _ Hb) as [rest [-> [A _]]].
+  eapply clause_true_incl; [|apply (H a Ha)].
+  intros z [<-|Hz]; [now left | right; now apply A].
+Qed.
+
+Lemma finish_asserting : forall tr dl p tail kept learnt bt,
+  trail_wf tr -> (forall e, In e tr -> (te_level e <= dl)%nat) ->
+  (forall q, In q tail -> false_in q tr /\ (0 < level_of tr (lvar q) < dl)%nat) ->
+  (exists e, In e tr /\ te_lit e = p /\ (dl <= te_level e)%nat) ->
+  incl kept tail ->
+  backjump tr (- p) kept = (learnt, bt) -> asserting tr dl learnt bt.
+Proof.
+  intros tr dl p tail kept learnt bt Hwf Hmax Htail [e [He [Ep Hl]]] Hincl Hb.
+  destruct (backjump_spec _ _ _ _ _ Hb) as [rest [-> [A [B [C D]]]]].
+  assert (Hnz : te_lit e <> 0).
+  { destruct (in_split _ _ He) as [pre [post E]]. subst tr. apply wf_suffix in Hwf. now inversion Hwf. }
+  exists (- p), rest. repeat split; auto.
+  - rewrite lvar_opp, <- Ep. change (lvar (te_lit e)) with (te_var e). rewrite level_of_in; auto.
+    specialize (Hmax e He). lia.
+  - apply Htail, Hincl, A; auto.
+  - apply Htail, Hincl, A; auto.
+  - intros E. subst rest. apply B. destruct kept as [|x k]; auto. exfalso. apply (A x). now left.
+  - intros N. apply D. intros E. subst kept. destruct rest as [|x r]; [now apply N|]. apply (A x). now left.
+  - destruct H as [<-|Hq].
+    + subst p. lia.
+    + apply Htail, Hincl, A; auto.
+  - destruct H as [<-|Hq].
+    + exists e; split; auto. rewrite Ep. lia.
+    + apply Htail, Hincl, A; auto.
+Qed.
+
+Theorem analyze_nomin_implied : forall tr dl c learnt bt,
+  trail_wf tr -> falsified c tr -> analyze_nomin tr dl c = Some (learnt, bt) ->
+  entails (reasons tr ++ [c]) learnt.
+Proof.
+  intros tr dl c learnt bt Hwf Hf H. unfold analyze_nomin in H.
+  destruct (phase1 tr dl c) as [[[[p s1] tail] mat]|] eqn:E1; [|discriminate]. inversion H as [Hb].
+  destruct (phase1_spec tr dl c Hwf p s1 tail mat Hf E1) as [R1 _].
+  eapply (finish_implied tr c p tail); eauto.
+Qed.
+
+Theorem analyze_nomin_asserting : forall tr dl c learnt bt,
+  trail_wf tr -> falsified c tr -> (forall e, In e tr -> (te_level e <= dl)%nat) ->
+  (0 < dl)%nat -> (exists q, In q c /\ (dl <= level_of tr (lvar q))%nat) ->
+  analyze_nomin tr dl c = Some (learnt, bt) -> asserting tr dl learnt bt.
+Proof.
+  intros tr dl c learnt bt Hwf Hf Hmax Hdl Hex H. unfold analyze_nomin in H.
+  destruct (phase1 tr dl c) as [[[[p s1] tail] mat]|] eqn:E1; [|discriminate]. inversion H as [Hb].
+  destruct (phase1_spec tr dl c Hwf p s1 tail mat Hf E1) as [R1 [R2 [R3 [e [R4 [R5 R6]]]]]].
+  apply (finish_asserting tr dl p tail tail); auto.
+  - exists e; auto.
+  - apply incl_refl.
+Qed.
+
+(* ------------------------------------------------------------------------------------------ *)
+(* phase 2                                                                                     *)
+
+Section Phase2.
+Variables (tr : trail) (abs : N) (mat : PS.t).
+
+(* the reason of v has been examined: all its other literals are marked or of level 0 *)
+Definition closedvar (S : PS.t) (v : positive) : Prop :=
+  exists e r, find_var tr v = Some e /\ te_reason e = Some r /\
+    forall q, In q (tl r) -> level_of tr (lvar q) = O \/ sIn (lvar q) S.
+
+Lemma closedvar_mono : forall S S' v, (forall x, sIn x S -> sIn x S') -> closedvar S v -> closedvar S' v.
+Proof.
+  intros S S' v Hs [e [r [A [B C]]]]. exists e, r. repeat split; auto.
+  intros q Hq. destruct (C q Hq); auto.
+Qed.
+
+Lemma lr_undo_spec : forall clr s v, sIn v (lr_undo clr s) <-> sIn v s /\ ~ In v (map lvar clr).
+Proof.
+  induction clr as [|q clr IH]; intros s v; simpl.
+  - tauto.
+  - unfold lr_undo in *. simpl. rewrite IH. rewrite sIn_remove. intuition.
+Qed.
+
+(* S = S0 + the marks of the current call, which are recorded in clr *)
+Definition Rel (S0 S : PS.t) (clr : list Z) : Prop :=
+  (forall v, sIn v S <-> sIn v S0 \/ In v (map lvar clr)) /\
+  (forall v, In v (map lvar clr) -> ~ sIn v S0).
+
+Lemma undo_Rel : forall S0 S clr, Rel S0 S clr -> forall v, sIn v (lr_undo clr S) <-> sIn v S0.
+Proof.
+  intros S0 S clr [R1 R2] v. rewrite lr_undo_spec, R1. split.
+  - intros [[H|H] N]; tauto.
+  - intros H. split; auto. intros N. apply (R2 v); auto.
+Qed.
+
+Lemma lr_scan_spec : forall S0 qs S stack clr, Rel S0 S clr ->
+  match lr_scan tr abs qs S stack clr with
+  | inl (S', stack', clr') =>
+      Rel S0 S' clr' /\ (forall v, sIn v S -> sIn v S') /\
+      (forall q, In q qs -> level_of tr (lvar q) = O \/ sIn (lvar q) S') /\
+      (forall v, sIn v S' -> sIn v S \/ In v (map lvar stack')) /\
+      (forall v, In v (map lvar stack) -> In v (map lvar stack'))
+  | inr S'' => forall v, sIn v S'' <-> sIn v S0
+  end.
+Proof.
+  intros S0. induction qs as [|q qs IH]; intros S stack clr HR; cbn [lr_scan].
+  - repeat split; try apply HR; auto. intros q [].
+  - destruct (negb (PS.mem (lvar q) S) && (0 <? level_of tr (lvar q))%nat) eqn:E1.
+    + apply andb_true_iff in E1. destruct E1 as [E1 E2]. apply negb_true_iff in E1. apply not_sIn in E1.
+      destruct ((match reason_of tr (lvar q) with Some _ => true | None => false end)
+                && negb (N.land (abstractLevel tr (lvar q)) abs =? 0)%N) eqn:E3.
+      * assert (HR1 : Rel S0 (PS.add (lvar q) S) (q :: clr)).
+        { destruct HR as [R1 R2]. split.
+          - intros v. rewrite sIn_add, R1. simpl. intuition.
+          - intros v [<-|Hv]; auto. intros H. apply E1. apply R1. now left. }
+        specialize (IH (PS.add (lvar q) S) (q :: stack) (q :: clr) HR1).
+        destruct (lr_scan tr abs qs (PS.add (lvar q) S) (q :: stack) (q :: clr)) as [[[S' st'] cl']|S'']; cbv beta iota in IH |- *; auto.
+        destruct IH as [A [B [C [D E]]]]. split; [|split; [|split; [|split]]]; auto.
+        -- intros v Hv. apply B. apply sIn_add. now right.
+        -- intros x [<-|Hx]; auto. right. apply B. apply sIn_add. now left.
+        -- intros v Hv. destruct (D v Hv) as [H|H]; auto. apply sIn_add in H. destruct H as [->|H]; auto.
+           right. apply E. now left.
+        -- intros v Hv. apply E. now right.
+      * apply undo_Rel; auto.
+    + specialize (IH S stack clr HR).
+      destruct (lr_scan tr abs qs S stack clr) as [[[S' st'] cl']|S'']; cbv beta iota in IH |- *; auto.
+      destruct IH as [A [B [C [D E]]]]. split; [|split; [|split; [|split]]]; auto.
+      intros x [<-|Hx]; auto.
+      apply andb_false_iff in E1. destruct E1 as [E1|E1].
+      * right. apply B. apply negb_false_iff in E1. exact E1.
+      * left. apply Nat.ltb_ge in E1. lia.
+Qed.
+
+Section Base.
+Variable B : positive -> Prop.
+
+Lemma lr_loop_spec : forall S0 fuel S stack clr b S',
+  Rel S0 S clr ->
+  (forall v, sIn v S -> B v \/ closedvar S v \/ In v (map lvar stack)) ->
+  lr_loop fuel tr abs mat S stack clr = Some (b, S') ->
+  (b = false -> forall v, sIn v S' <-> sIn v S0) /\
+  (b = true -> (forall v, sIn v S -> sIn v S') /\
+               (forall v, sIn v S' -> B v \/ closedvar S' v) /\
+               (forall v, In v (map lvar stack) -> closedvar S' v)).
+Proof.
+  intros S0. induction fuel as [|fuel IH]; intros S stack clr b S' HR HJ H.
+  - destruct stack; [|discriminate]. simpl in H. inversion H; subst. split; [discriminate|]. intros _.
+    repeat split; auto.
+    + intros v Hv. destruct (HJ v Hv) as [?|[?|[]]]; auto.
+    + intros v [].
+  - destruct stack as [|p stack].
+    { simpl in H. inversion H; subst. split; [discriminate|]. intros _. repeat split; auto.
+      - intros v Hv. destruct (HJ v Hv) as [?|[?|[]]]; auto.
+      - intros v []. }
+    simpl in H.
+    destruct (find_var tr (lvar p)) as [e|] eqn:Ef; [|discriminate].
+    destruct (te_reason e) as [r|] eqn:Er; [|discriminate].
+    destruct (te_theory e && negb (PS.mem (te_var e) mat)).
+    { inversion H; subst. split; [|discriminate]. intros _. apply undo_Rel; auto. }
+    pose proof (lr_scan_spec S0 (tl r) S stack clr HR) as Hscan.
+    destruct (lr_scan tr abs (tl r) S stack clr) as [[[S1 st1] cl1]|S'']; cbv beta iota in Hscan.
+    2:{ inversion H; subst. split; [|discriminate]. intros _. exact Hscan. }
+    destruct Hscan as [A [Bm [C [D E]]]].
+    assert (Hclp : closedvar S1 (lvar p)) by (exists e, r; auto).
+    assert (HJ1 : forall v, sIn v S1 -> B v \/ closedvar S1 v \/ In v (map lvar st1)).
+    { intros v Hv. destruct (D v Hv) as [Hs|Hs]; auto.
+      destruct (HJ v Hs) as [H1|[H1|[<-|H1]]]; auto.
+      right; left. eapply closedvar_mono; eauto. }
+    destruct (IH S1 st1 cl1 b S' A HJ1 H) as [F T]. split; auto.
+    intros ->. destruct (T eq_refl) as [T1 [T2 T3]]. repeat split; auto.
+    intros v [<-|Hv]; auto. eapply closedvar_mono; eauto.
+Qed.
+
+Lemma litRedundant_spec : forall q S b S',
+  (forall v, sIn v S -> B v \/ closedvar S v) ->
+  litRedundant tr abs mat q S = Some (b, S') ->
+  (b = false -> forall v, sIn v S' <-> sIn v S) /\
+  (b = true -> (forall v, sIn v S -> sIn v S') /\
+               (forall v, sIn v S' -> B v \/ closedvar S' v) /\
+               closedvar S' (lvar q)).
+Proof.
+  intros q S b S' HI H. unfold litRedundant in H.
+  assert (HR : Rel S S []) by (split; simpl; [tauto | intros v []]).
+  assert (HJ : forall v, sIn v S -> B v \/ closedvar S v \/ In v (map lvar [q])).
+  { intros v Hv. destruct (HI v Hv); auto. }
+  destruct (lr_loop_spec S _ S [q] [] b S' HR HJ H) as [F T]. split; auto.
+  intros ->. destruct (T eq_refl) as [T1 [T2 T3]]. repeat split; auto. apply T3. now left.
+Qed.
+
+End Base.
+
+Lemma minimize_spec : forall qs (B : positive -> Prop) S K S',
+  (forall v, sIn v S -> (B v \/ In v (map lvar qs)) \/ closedvar S v) ->
+  minimize tr abs mat qs S = Some (K, S') ->
+  (forall v, sIn v S' -> (B v \/ In v (map lvar K)) \/ closedvar S' v) /\
+  incl K qs /\
+  (forall q, In q qs -> In q K \/ closedvar S' (lvar q)) /\
+  (forall v, sIn v S -> sIn v S').
+Proof.
+  induction qs as [|q qs IH]; intros B S K S' HI H; simpl in H.
+  - inversion H; subst. split; [|split; [|split]]; auto; try apply incl_refl; try (intros q []).
+  - assert (Keep : forall S1 K1, (forall v, sIn v S1 <-> sIn v S) ->
+               minimize tr abs mat qs S1 = Some (K1, S') -> K = q :: K1 ->
+      (forall v, sIn v S' -> (B v \/ In v (map lvar K)) \/ closedvar S' v) /\
+      incl K (q :: qs) /\
+      (forall x, In x (q :: qs) -> In x K \/ closedvar S' (lvar x)) /\
+      (forall v, sIn v S -> sIn v S')).
+    { intros S1 K1 Heq Hm ->.
+      destruct (IH (fun v => B v \/ v = lvar q) S1 K1 S') as [A [Bi [C D]]]; auto.
+      - intros v Hv. apply Heq in Hv. destruct (HI v Hv) as [[H1|[H1|H1]]|H1]; auto.
+        right. eapply closedvar_mono; [|exact H1]. intros x Hx. now apply Heq.
+      - split; [|split; [|split]].
+        + intros v Hv. destruct (A v Hv) as [[[H1|H1]|H1]|H1]; auto.
+          * left; right. left. auto.
+          * left; right. now right.
+        + intros x [<-|Hx]; [now left | right; auto].
+        + intros x [<-|Hx]; [left; now left|]. destruct (C x Hx); auto. left; now right.
+        + intros v Hv. apply D. now apply Heq. }
+    destruct (reason_of tr (lvar q)) as [r|] eqn:Er.
+    2:{ destruct (minimize tr abs mat qs S) as [[K1 S2]|] eqn:Em; [|discriminate]. inversion H; subst.
+        apply (Keep S K1); auto. tauto. }
+    destruct (litRedundant tr abs mat q S) as [[[|] S1]|] eqn:El; [| |discriminate].
+    + (* redundant: dropped *)
+      destruct (litRedundant_spec (fun v => B v \/ In v (map lvar (q :: qs))) q S true S1 HI El) as [_ T].
+      destruct (T eq_refl) as [T1 [T2 T3]].
+      destruct (IH B S1 K S') as [A [Bi [C D]]]; auto.
+      * intros v Hv. destruct (T2 v Hv) as [[H1|[<-|H1]]|H1]; auto.
+      * split; [|split; [|split]]; auto.
+        -- intros x Hx. right. auto.
+        -- intros x [<-|Hx]; auto. right. eapply closedvar_mono; eauto.
+    + destruct (litRedundant_spec (fun v => B v \/ In v (map lvar (q :: qs))) q S false S1 HI El) as [F _].
+      destruct (minimize tr abs mat qs S1) as [[K1 S2]|] eqn:Em; [|discriminate]. inversion H; subst.
+      apply (Keep S1 K1); auto.
+Qed.
+
+End Phase2.
+
+(* ------------------------------------------------------------------------------------------ *)
+(* why the dropped literals are redundant (hint (c): closure argument along the trail)         *)
+
+Lemma reason_forces : forall tr a S e rr older,
+  trail_wf tr -> incl older tr -> In e tr -> te_reason e = Some (te_lit e :: rr) ->
+  falsified rr older -> models a (reasons tr) ->
+  (forall q, In q rr -> level_of tr (lvar q) = O \/ sIn (lvar q) S) ->
+  (forall e', In e' older -> sIn (te_var e') S -> lit_true a (te_lit e') = true) ->
+  lit_true a (te_lit e) = true.
+Proof.
+  intros tr a S e rr older Hwf Hincl He Er Hf Ha Hcl Hold.
+  assert (T : clause_true a (te_lit e :: rr) = true) by (apply Ha; eapply reasons_in; eauto).
+  simpl in T. apply orb_true_iff in T. destruct T as [T|T]; auto. exfalso.
+  apply clause_true_iff in T. destruct T as [q [Hq Tq]].
+  destruct (Hf q Hq) as [Hq0 [e' [He' E']]].
+  assert (T' : lit_true a (te_lit e') = true).
+  { destruct (Hcl q Hq) as [L0|Hs].
+    - rewrite (level_of_false tr e' q Hwf (Hincl _ He') E') in L0.
+      pose proof (level0_entailed tr Hwf e' (Hincl _ He') L0 a Ha) as T'. simpl in T'.
+      now rewrite orb_false_r in T'.
+    - apply Hold; auto. unfold te_var. now rewrite E', lvar_opp. }
+  rewrite E' in T'. apply lit_true_opp_false in T'. congruence.
+Qed.
+
+Lemma closure_true : forall tr a S K,
+  trail_wf tr -> models a (reasons tr) -> falsified K tr ->
+  (forall q, In q K -> lit_true a q = false) ->
+  (forall v, sIn v S -> In v (map lvar K) \/ closedvar tr S v) ->
+  forall rest pre, tr = pre ++ rest ->
+  forall e, In e rest -> sIn (te_var e) S -> lit_true a (te_lit e) = true.
+Proof.
+  intros tr a S K Hwf Ha HfK HK HI. induction rest as [|e0 rest IH]; intros pre Htr e He Hs; [destruct He|].
+  assert (Htr' : tr = (pre ++ [e0]) ++ rest) by (rewrite <- app_assoc; exact Htr).
+  destruct He as [<-|He]; [|apply (IH (pre ++ [e0])); auto].
+  assert (Hwfr : trail_wf (e0 :: rest)) by (apply (wf_suffix pre); now rewrite <- Htr).
+  assert (Hsub : incl (e0 :: rest) tr) by (rewrite Htr; apply incl_appr, incl_refl).
+  assert (He0 : In e0 tr) by (apply Hsub; now left).
+  inversion Hwfr as [|e1 tr1 Hwf1 Hnz Hna Hmono Hdec Hreas]; subst e1 tr1.
+  destruct (HI _ Hs) as [Hb|[e' [r [F [R C]]]]].
+  - apply in_map_iff in Hb. destruct Hb as [q [Eq Hq]].
+    destruct (HfK q Hq) as [Hq0 [eq [Heq Eeq]]].
+    assert (eq = e0).
+    { apply (entry_unique tr); auto. unfold te_var at 1. now rewrite Eeq, lvar_opp. }
+    subst eq. rewrite Eeq. apply lit_true_opp_true; auto.
+  - rewrite (find_var_in tr e0 Hwf He0) in F. inversion F; subst e'.
+    destruct (Hreas r R) as [rr [-> Hfr]]. simpl in C.
+    apply (reason_forces tr a S e0 rr rest); auto.
+    + intros x Hx. apply Hsub. now right.
+    + intros e' He' Hs'. apply (IH (pre ++ [e0])); auto.
+Qed.
+
+Lemma minimize_sound : forall tr abs mat c p tail S K S',
+  trail_wf tr ->
+  (forall a, models a (reasons tr ++ [c]) -> clause_true a (- p :: tail) = true) ->
+  falsified tail tr ->
+  (forall v, sIn v S -> exists q, In q tail /\ lvar q = v) ->
+  minimize tr abs mat tail S = Some (K, S') ->
+  incl K tail /\ forall a, models a (reasons tr ++ [c]) -> clause_true a (- p :: K) = true.
+Proof.
+  intros tr abs mat c p tail S K S' Hwf P1 P2 P3 Hm.
+  destruct (minimize_spec tr abs mat tail (fun _ => False) S K S') as [A [Bi [C D]]]; auto.
+  { intros v Hv. destruct (P3 v Hv) as [q [Hq <-]]. left; right. now apply in_map. }
+  split; auto. intros a Ha.
+  destruct (clause_true a (- p :: K)) eqn:E; auto. exfalso.
+  pose proof (proj1 (clause_false_iff a _) E) as Hfalse.
+  assert (Har : models a (reasons tr)) by (apply models_app in Ha; tauto).
+  assert (HfK : falsified K tr) by (intros q Hq; apply P2; auto).
+  assert (HK : forall q, In q K -> lit_true a q = false) by (intros q Hq; apply Hfalse; now right).
+  assert (HI : forall v, sIn v S' -> In v (map lvar K) \/ closedvar tr S' v).
+  { intros v Hv. destruct (A v Hv) as [[[]|H]|H]; auto. }
+  pose proof (closure_true tr a S' K Hwf Har HfK HK HI tr [] eq_refl) as Hcl.
+  specialize (P1 a Ha). apply clause_true_iff in P1. destruct P1 as [l [[<-|Hl] Tl]].
+  - rewrite (Hfalse (- p)) in Tl; [discriminate | now left].
+  - destruct (C l Hl) as [HlK|[e [r [F [R Cl]]]]].
+    + rewrite (HK l HlK) in Tl. discriminate.
+    + destruct (find_var_some _ _ _ F) as [He Ev].
+      destruct (P2 l Hl) as [Hl0 [el [Hel Eel]]].
+      assert (el = e).
+      { apply (entry_unique tr); auto. rewrite Ev. unfold te_var. now rewrite Eel, lvar_opp. }
+      subst el.
+      destruct (in_split _ _ He) as [pre [older Etr]].
+      assert (Hwfr : trail_wf (e :: older)) by (apply (wf_suffix pre); now rewrite <- Etr).
+      inversion Hwfr as [|e1 tr1 Hwf1 Hnz Hna Hmono Hdec Hreas]; subst e1 tr1.
+      destruct (Hreas r R) as [rr [-> Hfr]]. simpl in Cl.
+      assert (Hsub : incl older tr).
+      { rewrite Etr. intros x Hx. apply in_or_app. right. now right. }
+      assert (T : lit_true a (te_lit e) = true).
+      { apply (reason_forces tr a S' e rr older); auto. }
+      rewrite Eel in T. apply lit_true_opp_false in T. congruence.
+Qed.
+
+(* ------------------------------------------------------------------------------------------ *)
+(* the theorems                                                                                *)
+
+Theorem analyze_implied : forall tr dl c learnt bt,
+  trail_wf tr -> falsified c tr -> analyze tr dl c = Some (learnt, bt) ->
+  entails (reasons tr ++ [c]) learnt.
+Proof.
+  intros tr dl c learnt bt Hwf Hf H. unfold analyze in H.
+  destruct (phase1 tr dl c) as [[[[p s1] tail] mat]|] eqn:E1; [|discriminate].
+  destruct (minimize tr (abstract_levels tr tail) mat tail s1) as [[K S']|] eqn:E2; [|discriminate].
+  inversion H as [Hb].
+  destruct (phase1_spec tr dl c Hwf p s1 tail mat Hf E1) as [R1 [R2 [R3 _]]].
+  assert (P2 : falsified tail tr) by (intros q Hq; apply R2; auto).
+  destruct (minimize_sound tr _ mat c p tail s1 K S' Hwf R1 P2 R3 E2) as [_ Hs].
+  eapply (finish_implied tr c p K); eauto.
+Qed.
+
+Theorem analyze_asserting : forall tr dl c learnt bt,
+  trail_wf tr -> falsified c tr -> (forall e, In e tr -> (te_level e <= dl)%nat) ->
+  (0 < dl)%nat -> (exists q, In q c /\ (dl <= level_of tr (lvar q))%nat) ->
+  analyze tr dl c = Some (learnt, bt) -> asserting tr dl learnt bt.
+Proof.
+  intros tr dl c learnt bt Hwf Hf Hmax Hdl Hex H. unfold analyze in H.
+  destruct (phase1 tr dl c) as [[[[p s1] tail] mat]|] eqn:E1; [|discriminate].
+  destruct (minimize tr (abstract_levels tr tail) mat tail s1) as [[K S']|] eqn:E2; [|discriminate].
+  inversion H as [Hb].
+  destruct (phase1_spec tr dl c Hwf p s1 tail mat Hf E1) as [R1 [R2 [R3 [e [R4 [R5 R6]]]]]].
+  assert (P2 : falsified tail tr) by (intros q Hq; apply R2; auto).
+  destruct (minimize_sound tr _ mat c p tail s1 K S' Hwf R1 P2 R3 E2) as [Hi _].
+  apply (finish_asserting tr dl p tail K); auto.
+  exists e; auto.
+Qed.
+
+(* ------------------------------------------------------------------------------------------ *)
+(* totality: the fuel of litRedundant always suffices                                          *)
+
+Lemma filter_length_le : forall (A : Type) (f g : A -> bool) l,
+  (forall x, f x = true -> g x = true) -> (length (filter f l) <= length (filter g l))%nat.
+Proof.
+  intros A f g l H. induction l as [|x l IH]; simpl; auto.
+  destruct (f x) eqn:Ef.
+  - rewrite (H x Ef). simpl. lia.
+  - destruct (g x); simpl; lia.
+Qed.
+
+Lemma filter_length_lt : forall (A : Type) (f g : A -> bool) l e,
+  (forall x, f x = true -> g x = true) -> In e l -> g e = true -> f e = false ->
+  (length (filter f l) < length (filter g l))%nat.
+Proof.
+  intros A f g l e H. induction l as [|x l IH]; simpl; intros Hin Hg Hf; [destruct Hin|].
+  destruct Hin as [->|Hin].
+  - rewrite Hf, Hg. simpl. pose proof (filter_length_le A f g l H). lia.
+  - specialize (IH Hin Hg Hf). destruct (f x) eqn:Ef.
+    + rewrite (H x Ef). simpl. lia.
+    + destruct (g x); simpl; lia.
+Qed.
+
+Section Fuel.
+Variables (tr : trail) (abs : N) (mat : PS.t).
+
+(* number of trail entries whose variable is not marked *)
+Definition uns (S : PS.t) : nat := length (filter (fun e => negb (PS.mem (te_var e) S)) tr).
+
+Lemma uns_add : forall S v, reason_of tr v <> None -> ~ sIn v S -> (uns (PS.add v S) < uns S)%nat.
+Proof.
+  intros S v Hr Hns. unfold reason_of in Hr. destruct (find_var tr v) as [e|] eqn:F; [|congruence].
+  destruct (find_var_some _ _ _ F) as [He Ev]. unfold uns.
+  apply (filter_length_lt _ _ _ tr e); auto.
+  - intros x Hx. apply negb_true_iff in Hx. apply negb_true_iff.
+    destruct (PS.mem (te_var x) S) eqn:E; auto.
+    assert (sIn (te_var x) (PS.add v S)) by (apply sIn_add; now right). unfold sIn in H. congruence.
+  - rewrite Ev. apply negb_true_iff. destruct (PS.mem v S) eqn:E; auto. contradiction.
+  - rewrite Ev. apply negb_false_iff. apply sIn_add. now left.
+Qed.
+
+Definition stack_ok (stack : list Z) : Prop := forall p, In p stack -> reason_of tr (lvar p) <> None.
+
+Lemma lr_scan_measure : forall qs S stack clr S' stack' clr',
+  stack_ok stack -> lr_scan tr abs qs S stack clr = inl (S', stack', clr') ->
+  stack_ok stack' /\ (length stack' + uns S' <= length stack + uns S)%nat.
+Proof.
+  induction qs as [|q qs IH]; intros S stack clr S' stack' clr' Hok H; cbn [lr_scan] in H.
+  - inversion H; subst. auto.
+  - destruct (negb (PS.mem (lvar q) S) && (0 <? level_of tr (lvar q))%nat) eqn:E1; [|eapply IH; eauto].
+    apply andb_true_iff in E1. destruct E1 as [E1 E2]. apply negb_true_iff in E1. apply not_sIn in E1.
+    destruct ((match reason_of tr (lvar q) with Some _ => true | None => false end)
+              && negb (N.land (abstractLevel tr (lvar q)) abs =? 0)%N) eqn:E3; [|discriminate].
+    apply andb_true_iff in E3. destruct E3 as [E3 _].
+    assert (Hr : reason_of tr (lvar q) <> None) by (destruct (reason_of tr (lvar q)); congruence).
+    assert (Hok1 : stack_ok (q :: stack)) by (intros p [<-|Hp]; auto).
+    destruct (IH _ _ _ _ _ _ Hok1 H) as [A B].
+    split; auto. pose proof (uns_add S (lvar q) Hr E1). simpl in B. lia.
+Qed.
+
+Lemma lr_loop_total : forall fuel S stack clr,
+  stack_ok stack -> (length stack + uns S <= fuel)%nat -> lr_loop fuel tr abs mat S stack clr <> None.
+Proof.
+  induction fuel as [|fuel IH]; intros S stack clr Hok Hm.
+  - destruct stack; [simpl; discriminate | simpl in Hm; lia].
+  - destruct stack as [|p stack]; [simpl; discriminate|]. simpl.
+    pose proof (Hok p (or_introl eq_refl)) as Hp. unfold reason_of in Hp.
+    destruct (find_var tr (lvar p)) as [e|]; [|congruence].
+    destruct (te_reason e) as [r|]; [|congruence].
+    destruct (te_theory e && negb (PS.mem (te_var e) mat)); [discriminate|].
+    destruct (lr_scan tr abs (tl r) S stack clr) as [[[S1 st1] cl1]|S''] eqn:Es; [|discriminate].
+    destruct (lr_scan_measure _ _ _ _ _ _ _ (fun x Hx => Hok x (or_intror Hx)) Es) as [A B].
+    apply IH; auto. simpl in Hm. lia.
+Qed.
+
+Lemma litRedundant_total : forall q S, reason_of tr (lvar q) <> None -> litRedundant tr abs mat q S <> None.
+Proof.
+  intros q S Hr. unfold litRedundant. apply lr_loop_total.
+  - intros p [<-|[]]. exact Hr.
+  - simpl. unfold uns. pose proof (filter_length_le _ (fun e => negb (PS.mem (te_var e) S)) (fun _ => true) tr (fun _ _ => eq_refl)).
+    assert (E : filter (fun _ : tentry => true) tr = tr).
+    { clear. induction tr as [|x l IHl]; simpl; congruence. }
+    rewrite E in H. lia.
+Qed.
+
+Lemma minimize_total : forall qs S, minimize tr abs mat qs S <> None.
+Proof.
+  induction qs as [|q qs IH]; intros S; simpl; [discriminate|].
+  destruct (reason_of tr (lvar q)) as [r|] eqn:Er.
+  - pose proof (litRedundant_total q S) as Hl. rewrite Er in Hl. specialize (Hl ltac:(discriminate)).
+    destruct (litRedundant tr abs mat q S) as [[[|] S1]|]; [| |congruence].
+    + apply IH.
+    + specialize (IH S1). destruct (minimize tr abs mat qs S1) as [[k s]|]; [discriminate|congruence].
+  - specialize (IH S). destruct (minimize tr abs mat qs S) as [[k s]|]; [discriminate|congruence].
+Qed.
+
+End Fuel.
+
+Theorem analyze_total : forall tr dl c,
+  trail_wf tr -> falsified c tr -> (forall e, In e tr -> (te_level e <= dl)%nat) ->
+  decisions_open_levels tr -> (0 < dl)%nat -> (exists q, In q c /\ (dl <= level_of tr (lvar q))%nat) ->
+  analyze tr dl c <> None.
+Proof.
+  intros tr dl c Hwf Hf Hmax Hdec Hdl Hex. unfold analyze.
+  pose proof (phase1_total tr dl c Hwf Hf Hmax Hdec Hdl Hex) as H1.
+  destruct (phase1 tr dl c) as [[[[p s1] tail] mat]|]; [|congruence].
+  pose proof (minimize_total tr (abstract_levels tr tail) mat tail s1) as H2.
+  destruct (minimize tr (abstract_levels tr tail) mat tail s1) as [[K S']|]; [discriminate|congruence].
+Qed.
+
+Theorem analyze_nomin_total : forall tr dl c,
+  trail_wf tr -> falsified c tr -> (forall e, In e tr -> (te_level e <= dl)%nat) ->
+  decisions_open_levels tr -> (0 < dl)%nat -> (exists q, In q c /\ (dl <= level_of tr (lvar q))%nat) ->
+  analyze_nomin tr dl c <> None.
+Proof.
+  intros tr dl c Hwf Hf Hmax Hdec Hdl Hex. unfold analyze_nomin.
+  pose proof (phase1_total tr dl c Hwf Hf Hmax Hdec Hdl Hex) as H1.
+  destruct (phase1 tr dl c) as [[[[p s1] tail] mat]|]; [discriminate|congruence].
+Qed.
+
+(* boolean checker for [decisions_open_levels] *)
+Fixpoint decisions_openb (t : trail) : bool :=
+  match t with
+  | [] => true
+  | e :: t' =>
+    (match te_reason e with
+     | None => forallb (fun e' => (te_level e' <? te_level e)%nat) t'
+     | Some _ => true
+     end) && decisions_openb t'
+  end.
+
+Lemma decisions_openb_sound : forall t, decisions_openb t = true -> decisions_open_levels t.
+Proof.
+  intros t H pre. revert t H. induction pre as [|x pre IH]; intros t H e post Et Er e' He'.
+  - simpl in Et. subst t. simpl in H. rewrite Er in H. apply andb_true_iff in H. destruct H as [H _].
+    rewrite forallb_forall in H. apply Nat.ltb_lt. auto.
+  - simpl in Et. subst t. simpl in H. apply andb_true_iff in H. destruct H as [_ H].
+    apply (IH _ H e post eq_refl Er e' He').
+Qed.
+
+(* ------------------------------------------------------------------------------------------ *)
+(* examples (non-vacuity)                                                                      *)
 
 (* oldest first:  1@0 (fact) | 2@1 dec, 3@1 <- 2 | 4@2 dec, 5@2 <- 4,1 | 6@3 dec, 7@3 <- 6, 9@3 <- 7,5,
-   8@3 <- 7,3,2 ;  conflict (-8 \/ -9) *)
+   8@3 <- 7,3,2 ;  conflict (-8 \/ -9 \/ -1).
+   first UIP is 7 (not the decision 6); -1 is a level-0 literal and is dropped; the clause before
+   minimisation is (-7 -3 -2 -5); -3 is redundant (its reason 3 <- 2 only mentions the marked variable 2);
+   -5 is not (its reason mentions the decision 4); -5 (level 2) is swapped to index 1. *)
 Definition ex_trail : trail :=
   [ mkT 8 3 (Some [8; -7; -3; -2]) false;
     mkT 9 3 (Some [9; -7; -5]) false;
@@ -295,6 +1424,73 @@ Definition ex_trail : trail :=
     mkT 1 0 (Some [1]) false ].
 Definition ex_confl : clause := [-8; -9; -1].
 
+Example ex_wf : trail_wf ex_trail.
+Proof. apply trail_wfb_sound. vm_compute. reflexivity. Qed.
+Example ex_falsified : falsified ex_confl ex_trail.
+Proof. apply falsifiedb_sound. vm_compute. reflexivity. Qed.
+Example ex_levels : forall e, In e ex_trail -> (te_level e <= 3)%nat.
+Proof. intros e H. simpl in H. repeat (destruct H as [<-|H]; [simpl; lia|]). destruct H. Qed.
+Example ex_decisions : decisions_open_levels ex_trail.
+Proof. apply decisions_openb_sound. vm_compute. reflexivity. Qed.
+Example ex_confl_level : exists q, In q ex_confl /\ (3 <= level_of ex_trail (lvar q))%nat.
+Proof. exists (-8). split; [now left | vm_compute; lia]. Qed.
+
 Example ex_phase1 : match phase1 ex_trail 3 ex_confl with
                     | Some (p, _, tail, _) => Some (p, tail) | None => None end = Some (7, [-3; -2; -5]).
 Proof. vm_compute. reflexivity. Qed.
+Example ex_analyze : analyze ex_trail 3 ex_confl = Some ([-7; -5; -2], 2%nat).
+Proof. vm_compute. reflexivity. Qed.
+Example ex_analyze_nomin : analyze_nomin ex_trail 3 ex_confl = Some ([-7; -5; -2; -3], 2%nat).
+Proof. vm_compute. reflexivity. Qed.
+
+(* the theorems apply to the example *)
+Example ex_implied : entails (reasons ex_trail ++ [ex_confl]) [-7; -5; -2].
+Proof. exact (analyze_implied _ _ _ _ _ ex_wf ex_falsified ex_analyze). Qed.
+Example ex_asserting : asserting ex_trail 3 [-7; -5; -2] 2.
+Proof. exact (analyze_asserting _ _ _ _ _ ex_wf ex_falsified ex_levels ltac:(lia) ex_confl_level ex_analyze). Qed.
+Example ex_total : analyze ex_trail 3 ex_confl <> None.
+Proof. exact (analyze_total _ _ _ ex_wf ex_falsified ex_levels ex_decisions ltac:(lia) ex_confl_level). Qed.
+
+(* the same trail with 3 propagated by the theory with a lazy reason (CRef_Fake): litRedundant gives up on
+   -3 (sat_minimize_conflicts == 1), nothing is removed *)
+Definition ex_trail_th : trail :=
+  [ mkT 8 3 (Some [8; -7; -3; -2]) false;
+    mkT 9 3 (Some [9; -7; -5]) true;
+    mkT 7 3 (Some [7; -6]) false;
+    mkT 6 3 None false;
+    mkT 5 2 (Some [5; -4; -1]) false;
+    mkT 4 2 None false;
+    mkT 3 1 (Some [3; -2]) true;
+    mkT 2 1 None false;
+    mkT 1 0 (Some [1]) false ].
+Example ex_th_wf : trail_wf ex_trail_th.
+Proof. apply trail_wfb_sound. vm_compute. reflexivity. Qed.
+Example ex_th_analyze : analyze ex_trail_th 3 ex_confl = Some ([-7; -5; -2; -3], 2%nat).
+Proof. vm_compute. reflexivity. Qed.
+
+(* error values: two "decisions" on one level (violates [decisions_open_levels]; the C++ would fail
+   assert(pathC == 1 || confl != CRef_Undef), CoreSMTSolver.cc:720) *)
+Definition ex_bad : trail := [ mkT 2 1 None false; mkT 1 1 None false ].
+Example ex_bad_wf : trail_wf ex_bad /\ falsified [-1; -2] ex_bad /\ ~ decisions_open_levels ex_bad.
+Proof.
+  split; [apply trail_wfb_sound; vm_compute; reflexivity|].
+  split; [apply falsifiedb_sound; vm_compute; reflexivity|].
+  intros H. specialize (H [] (mkT 2 1 None false) [mkT 1 1 None false] eq_refl eq_refl _ (or_introl eq_refl)).
+  simpl in H. lia.
+Qed.
+Example ex_bad_none : analyze ex_bad 1 [-1; -2] = None.
+Proof. vm_compute. reflexivity. Qed.
+(* a conflict clause without a literal of the current level: nothing is marked, the walk runs off the trail *)
+Example ex_low_none : analyze ex_trail 3 [-1] = None.
+Proof. vm_compute. reflexivity. Qed.
+
+(* the hypothesis "the conflict clause has a literal of the current level" of [analyze_asserting] is needed:
+   without it the C++ (and the model) return a clause that is implied but not asserting *)
+Example ex_low_not_asserting : analyze ex_trail 3 [-5; -3] = Some ([-5; -5; -3], 2%nat).
+Proof. vm_compute. reflexivity. Qed.
+
+Print Assumptions analyze_nomin_implied.
+Print Assumptions analyze_nomin_asserting.
+Print Assumptions analyze_total.
+Print Assumptions analyze_implied.
+Print Assumptions analyze_asserting.
